@@ -368,7 +368,7 @@ func min11(tr *Trace11, class string) *Trace11 {
 	if !test(&cur) {
 		return tr
 	}
-	keep := kit.DDMin(len(cur.Faults), func(idx []int) bool {
+	keep := kit.DDMinN(len(cur.Faults), 150, func(idx []int) bool {
 		t := cur
 		t.Faults = nil
 		for _, i := range idx {
